@@ -287,6 +287,13 @@ func checkEngine(t *testing.T, c *EngineCase) ([]Diff, *engineOutcome) {
 				break
 			}
 		}
+		// the same fact in C03's terms: the list ends at the lowest TTL the destination answered in time
+		for _, d := range c.Deliveries {
+			if d.Noise == "" && d.Dest && max(d.AtNs, c.SendLagNs) <= deadline-c.PollNs && len(res) > d.TTL-c.MinTTL+1 {
+				ds = append(ds, Diff{"C03", "runs-past-destination", fmt.Sprintf("the destination's answer for TTL %d was due at %v (deadline %v, poll %v) but the list has %d entries from TTL %d", d.TTL, time.Duration(d.AtNs), time.Duration(deadline), time.Duration(c.PollNs), len(res), c.MinTTL)})
+				break
+			}
+		}
 		// sender stops after a destination reply was returned (one in flight allowed)
 		var destAt time.Duration = -1
 		for _, r := range o.drv.returned {
@@ -396,7 +403,8 @@ func genEngineCase(t *rapid.T, engine string) *EngineCase {
 		c.Engine = oneOf(t, "engine", "parallel", "serial")
 	}
 	c.MinTTL, c.MaxTTL = genTTLRange(t, 40)
-	c.DelayNs = oneOf(t, "delay", int64(0), 1000, 1_000_000, 10_000_000)
+	// delays that are not whole milliseconds are legal for library callers (time.Duration); the deadline must count them in full
+	c.DelayNs = oneOf(t, "delay", int64(0), 1000, 1_000_000, 10_000_000, 900_000, 1_500_000, 2_999_999)
 	c.PollNs = oneOf(t, "poll", int64(1_000_000), 10_000_000, 100_000_000)
 	c.TimeoutNs = oneOf(t, "timeout", int64(20_000_000), 100_000_000, 1_000_000_000)
 	n := c.MaxTTL - c.MinTTL + 1
